@@ -279,7 +279,7 @@ fn c12_gate_case(seed: u64, trace: bool) -> CaseOut {
             let l = c.cc.log.lock().unwrap();
             ran.w.mon.cnt.add("c12.floor_checks_in_vivo", l.window_reads);
             for v in &l.floor_violations {
-                msgs.push(format!("built-in controller {:?}: {v}", c.tcfg.cc));
+                msgs.push(format!("{}: {v} (observed on a live connection)", format!("{:?}", c.tcfg.cc).to_lowercase()));
             }
         }
     }
@@ -346,6 +346,7 @@ fn c12_controller_case(seed: u64) -> CaseOut {
     let ests = crate::cfg::rtt_samples();
     let mut calls = 0u64;
     let mut hist: Vec<String> = vec![];
+    let (mut cong_since_acks, mut mtu_raised) = (false, false);
     for _ in 0..(50 + r.below(400)) {
         now_ns += *r.pick(&[0, 1, 1000, 1_000_000, 50_000_000, 2_000_000_000]);
         let now = t0 + Duration::from_nanos(now_ns);
@@ -368,6 +369,7 @@ fn c12_controller_case(seed: u64) -> CaseOut {
                     let e = ests[r.usize(ests.len())];
                     c.on_ack(now, sent, b, app_limited, &e);
                     c.on_end_acks(now, in_flight, app_limited, Some(pn));
+                    cong_since_acks = false;
                 }
                 desc = format!("ack({b})");
             }
@@ -376,10 +378,15 @@ fn c12_controller_case(seed: u64) -> CaseOut {
                 let ecn = r.chance(30);
                 let lost = if ecn { 0 } else { *r.pick(&[1u64, 1200, 30_000, 1_000_000]) };
                 c.on_congestion_event(now, sent, persistent, ecn, lost);
+                cong_since_acks = true;
                 desc = format!("congestion(persistent={persistent},ecn={ecn},lost={lost})");
             }
             6 => {
-                mtu = *r.pick(&[1200, 1250, 1452, 1500, 4000, 9000]);
+                let new = *r.pick(&[1200, 1250, 1452, 1500, 4000, 9000]);
+                if new > mtu {
+                    mtu_raised = true;
+                }
+                mtu = new;
                 c.on_mtu_update(mtu);
                 desc = format!("mtu({mtu})");
             }
@@ -396,7 +403,7 @@ fn c12_controller_case(seed: u64) -> CaseOut {
         if w < 2 * mtu as u64 {
             out.viol.push(crate::app::Violation {
                 prop: "C12",
-                msg: format!("{name}: window {w} < 2 x mtu {mtu} after {desc} (call #{calls}, history prefix {hist:?})"),
+                msg: format!("{name}: {}window {w} < 2 x mtu {mtu} after {desc} (call #{calls}, history prefix {hist:?})", crate::cfg::floor_tag(cong_since_acks, mtu_raised)),
             });
             break;
         }
